@@ -174,9 +174,19 @@ def exoticNumberText (s : Str) : Bool :=
 def leafKind : Leaf → String
   | .prim _ => "prim" | .arr _ _ _ _ => "arr" | .obj _ _ _ => "obj" | .deep _ _ => "deep"
 
+/-- colliding deepObject keys (same bracket groups, e.g. `p[a]` and `p[a]zz`): the Go map keeps one of them, which one
+depends on the iteration order. The driver evaluates the model on the request and on the request with the query
+entries reversed (first wins / last wins); that covers a single collision of two single-valued keys — more is unsupported. -/
+def collisionOK (props : List (List Str × List Str)) : Bool :=
+  let dups := props.filter (fun a => (props.filter (fun b => b.1 = a.1)).length ≥ 2)
+  dups.isEmpty || (dups.length = 2 && dups.all (fun a => a.2.length = 1))
+
+def deepSupportedD (name : Str) (r : Req) (sprops : List (Str × DS)) : Bool :=
+  (deepProps name r.query).all (deepSupportedKey sprops) && collisionOK (deepProps name r.query)
+
 def unsupportedLeaf (c : Cell) (name : Str) (r : Req) : Leaf → Bool
-  | .deep sp _ => c.style = .deepObject && !deepSupported name r sp
-  | .obj sp _ _ => c.style = .deepObject && !deepSupported name r (sp.map (fun kv => (kv.1, DS.prim kv.2)))
+  | .deep sp _ => c.style = .deepObject && !deepSupportedD name r sp
+  | .obj sp _ _ => c.style = .deepObject && !deepSupportedD name r (sp.map (fun kv => (kv.1, DS.prim kv.2)))
   | _ => false
 
 def valBranch : Val → String
@@ -191,8 +201,15 @@ def handle (j : Json) : Json :=
   let r := parseReq j
   let om := decodeStyled impl cell name p.required r sch
   let os := decodeStyled spec cell name p.required r sch
-  let vm := validateParameter p r
-  let vs := validateSpec p r
+  -- mode "resp": the header is a response header, decided by validateResponseHeader
+  let resp := getStr j "mode" == "resp"
+  let vm := if resp then respHeaderImpl name cell.style cell.explode p.required r sch else validateParameter p r
+  let vs := if resp then respHeaderSpec name cell.style cell.explode p.required r sch else validateSpec p r
+  -- the other map order (see collisionOK)
+  let r2 : Req := { r with query := r.query.reverse }
+  let om2 := decodeStyled impl cell name p.required r2 sch
+  let vm2 := if resp then vm else validateParameter p r2
+  let hasAlt := cell.style == .deepObject && cell.loc == .query && (om2 != om || vm2 != vm)
   let texts := parseTexts j
   -- the round-trip oracle: for a leaf schema and encodable texts the specification's value is the value that was serialised
   let oracle : Option Val := match texts, sch with
@@ -207,6 +224,7 @@ def handle (j : Json) : Json :=
     (if EnumGoType p then ["EnumGoType"] else []) ++
     (if QueryObjAbsent p r then ["QueryObjAbsent"] else []) ++
     (if QueryObjNoProps p then ["QueryObjNoProps"] else []) ++
+    (if DeepKeyJunk p r then ["DeepKeyJunk"] else []) ++
     []
   let unsupported := (schLeaves sch).any (unsupportedLeaf cell name r) ||
     ((schLeaves sch).any leafHasNum && (reqStrings r).any exoticNumberText)
@@ -220,12 +238,15 @@ def handle (j : Json) : Json :=
     [valBranch om.val] ++
     (if oracle.isSome then ["roundtrip"] else []) ++
     (if earlyAbsent cell r then ["early.absent"] else []) ++
+    (if resp then ["mode.responseHeader"] else []) ++
+    (if hasAlt then ["deep.orderDependent"] else []) ++
     (if vm ≠ vs then ["model≠spec"] else [])
   jobj [
     ("model", jobj [("value", valJson om.val), ("found", Json.bool om.found), ("err", errStr om.err), ("verdict", verdictStr vm)]),
     ("spec", jobj [("value", valJsonS specVal), ("found", Json.bool os.found), ("err", errStr os.err), ("verdict", verdictStr vs),
                    ("enc_ok", Json.bool encOK), ("oracle", Json.bool oracle.isSome),
                    ("decode_agrees", Json.bool (match oracle with | none => true | some v => (valJsonS v).compress == (valJsonS os.val).compress))]),
+    ("model_alt", if hasAlt then jobj [("value", valJson om2.val), ("found", Json.bool om2.found), ("err", errStr om2.err), ("verdict", verdictStr vm2)] else Json.null),
     ("excl", jstrs excl),
     ("unsupported", Json.bool unsupported),
     ("branches", jstrs branches)]
